@@ -75,7 +75,7 @@ def run(ctx):
     progs = lib.replay_programs(ctx) or (list(gen.corpus()) + list(gen.types_corpus()))
     feats = {}
     while len(progs) < n_prog and not ctx.replay:
-        g = gen.G(ctx.rng, guard=(ctx.rng.random() < 0.7), allow_nested_reassign=False)
+        g = gen.G(ctx.rng, guard=(ctx.rng.random() < 0.7), allow_nested_reassign=False, rational=(len(progs) % 4 == 3))
         p = g.program()
         progs.append((p, [], "+".join(sorted(g.features))))
     meta, results = run_polar(ctx, progs, budgets)
